@@ -270,15 +270,52 @@ func init() {
 			panic(unsupported("time.Round to other than one second"))
 		}
 		t := in.timeOf(a[0])
-		in.fields(t)
 		tt := in.tt
 		up := tt.Cmp(OULe, mkConst(32, 500000000), t.nanos)
-		nx := in.addSecond(t)
-		r := &symTime{nanos: mkConst(32, 0)}
-		for k := range r.f {
-			r.f[k] = tt.Ite(up, nx.f[k], t.f[k])
+		if !in.w.branchT(up) {
+			return in.newTime(&symTime{f: t.f, nanos: mkConst(32, 0), digs: t.digs})
 		}
-		return in.newTime(r)
+		if t.digs != nil {
+			// digit-level increment with forks on the carry chain (no division)
+			d := append([]*Term(nil), t.digs...)
+			c8 := func(v byte) *Term { return mkConst(8, uint64(v)) }
+			inc := func(i int) { d[i] = tt.Bin(OAdd, d[i], c8(1)) }
+			is := func(i int, v byte) bool { return in.w.branchT(tt.Eq(d[i], c8(v))) }
+			done := false
+			for _, pair := range [][2]int{{12, 13}, {10, 11}} { // seconds, minutes
+				hi, lo := pair[0], pair[1]
+				if !is(lo, '9') {
+					inc(lo)
+					done = true
+					break
+				}
+				d[lo] = c8('0')
+				if !is(hi, '5') {
+					inc(hi)
+					done = true
+					break
+				}
+				d[hi] = c8('0')
+			}
+			if !done {
+				// hours 00..23
+				if is(8, '2') && is(9, '3') {
+					// day carry: fall back to the numeric calendar
+					goto numeric
+				}
+				if !is(9, '9') {
+					inc(9)
+				} else {
+					d[9] = c8('0')
+					inc(8)
+				}
+			}
+			return in.newTime(&symTime{nanos: mkConst(32, 0), digs: d})
+		}
+	numeric:
+		in.fields(t)
+		nx := in.addSecond(t)
+		return in.newTime(nx)
 	})
 	reg("(time.Time).Equal", func(in *Interp, c *frame, fn *ssa.Function, a []Value) Value {
 		return in.timeEq(in.timeOf(a[0]), in.timeOf(a[1]))
